@@ -102,4 +102,28 @@ example : exprPosRun (B "a.select") =
   decide +kernel
 example : exprPosRun (slice (B "a.select") 2 8) = "OUTSIDE" := by decide +kernel
 
+/-! the repaired subscript (Task R1): clause (a) evaluated on every sub-expression (`c06=1`): in particular the text of
+the column `offset` inside `a[offset]` (2..8) re-parses as that `Ident`, and the text of `a[offset (1)]` re-parses with
+the keyword subscript -/
+
+example : exprPosRunC (B "a[offset]") =
+    "OK (index (ident 61) (expr (ident 6f6666736574))) 0:IndexExpr:0:9:Rbrack=8 1:Ident:0:1:NamePos=0,NameEnd=1 1:ExprArg:2:8:- 2:Ident:2:8:NamePos=2,NameEnd=8 c06=1" := by
+  decide +kernel
+example : exprPosRunC (B "a[ORDINAL * 2]") =
+    "OK (index (ident 61) (expr (bin * (ident 4f5244494e414c) (int 32)))) 0:IndexExpr:0:14:Rbrack=13 1:Ident:0:1:NamePos=0,NameEnd=1 1:ExprArg:2:13:- 2:BinaryExpr:2:13:- 3:Ident:2:9:NamePos=2,NameEnd=9 3:IntLiteral:12:13:ValuePos=12,ValueEnd=13 c06=1" := by
+  decide +kernel
+example : exprPosRunC (B "a[offset.f]") =
+    "OK (index (ident 61) (expr (path 6f6666736574 66))) 0:IndexExpr:0:11:Rbrack=10 1:Ident:0:1:NamePos=0,NameEnd=1 1:ExprArg:2:10:- 2:Path:2:10:- 3:Ident:2:8:NamePos=2,NameEnd=8 3:Ident:9:10:NamePos=9,NameEnd=10 c06=1" := by
+  decide +kernel
+example : exprPosRunC (B "a[safe_offset]") =
+    "OK (index (ident 61) (expr (ident 736166655f6f6666736574))) 0:IndexExpr:0:14:Rbrack=13 1:Ident:0:1:NamePos=0,NameEnd=1 1:ExprArg:2:13:- 2:Ident:2:13:NamePos=2,NameEnd=13 c06=1" := by
+  decide +kernel
+example : exprPosRunC (B "a[OFFSET(1)]") =
+    "OK (index (ident 61) (OFFSET (int 31))) 0:IndexExpr:0:12:Rbrack=11 1:Ident:0:1:NamePos=0,NameEnd=1 1:SubscriptSpecifierKeyword:2:11:KeywordPos=2,Rparen=10 2:IntLiteral:9:10:ValuePos=9,ValueEnd=10 c06=1" := by
+  decide +kernel
+example : exprPosRunC (B "a[offset (1)]") =
+    "OK (index (ident 61) (OFFSET (int 31))) 0:IndexExpr:0:13:Rbrack=12 1:Ident:0:1:NamePos=0,NameEnd=1 1:SubscriptSpecifierKeyword:2:12:KeywordPos=2,Rparen=11 2:IntLiteral:10:11:ValuePos=10,ValueEnd=11 c06=1" := by
+  decide +kernel
+example : exprPosRun (slice (B "a[offset]") 2 8) = "OK (ident 6f6666736574) 0:Ident:0:6:NamePos=0,NameEnd=6" := by decide +kernel
+
 end MF.Props.C06
